@@ -1,6 +1,6 @@
 // append-to: src/vt.rs
 // harness: k_feed_str_is_fold props=C12,C13,C15,C02 kind=bounded tier=thorough timeout=2400 obligation=Vt::feed_str(fold of feed, then changes() and gc()) bound="2x2 terminal, limit 0, two ASCII characters from a class-covering alphabet"
-// harness: k_vt_resize_a props=C02,C13,C15 kind=bounded tier=quick timeout=900 obligation=Vt::resize(= Terminal::resize, then changes(), then gc()) bound="2x2 terminal with one scrollback line, limit 0, resize to 3x1"
+// harness: k_vt_resize_a props=C02,C13,C15 kind=bounded tier=thorough timeout=1800 obligation=Vt::resize(= Terminal::resize, then changes(), then gc()) bound="2x2 terminal with one scrollback line, limit 0, resize to 3x1"
 // harness: k_vt_resize_b props=C02,C13,C15 kind=bounded tier=thorough timeout=900 obligation=Vt::resize bound="2x2 terminal with one scrollback line, limit 0, resize to 1x3"
 #[cfg(kani)]
 mod verif_kani_vt {
